@@ -1,0 +1,21 @@
+//go:build verif
+
+package schema
+
+import "reflect"
+
+// Read-only accessors for verification tooling (build tag "verif"). Add-only: nothing in
+// this file is referenced by the SDK itself.
+
+// VerifFieldCache returns a copy of the property-to-struct-field table of a struct-mapped
+// object schema; nil for a map-based object.
+func (o *ObjectSchema) VerifFieldCache() map[string]reflect.StructField {
+	if o.fieldCache == nil {
+		return nil
+	}
+	result := make(map[string]reflect.StructField, len(o.fieldCache))
+	for k, v := range o.fieldCache {
+		result[k] = v
+	}
+	return result
+}
